@@ -283,6 +283,8 @@ type hist struct {
 	dist    hx.Counter
 	signers bool
 	cur     config // the settings in force (changed by setProp)
+	rotUsed     map[int]bool      // addresses that took part in a rotation (a target must have no rotation history)
+	rrHolder    map[string]string // validator address -> account holding its recovery tokens
 	planPending bool // an upgrade plan has paused its non-approving voters; its second BeginBlock is due
 	spellRng *hx.Rng // decides the spelling (lower / upper-case bech32) of address strings
 }
@@ -352,7 +354,9 @@ func (x *hist) claim(v, k int, perm bool) {
 			panic(err)
 		}
 	}
-	msg, err := stakingtypes.NewMsgClaimValidator(fmt.Sprintf("moniker%d", v), w.valAddrs[v], w.keys[k])
+	// monikers are unique per claim (after a rotation the old address is free again but its moniker moved on)
+	x.propSeq++
+	msg, err := stakingtypes.NewMsgClaimValidator(fmt.Sprintf("moniker%dx%d", v, x.propSeq), w.valAddrs[v], w.keys[k])
 	if err != nil {
 		panic(err)
 	}
@@ -575,7 +579,17 @@ func (x *hist) upgradePause(vs []int64, r *hx.Rng) {
 			actor = govtypes.NewDefaultActor(addr)
 		}
 		has := actor.Permissions.IsWhitelisted(govtypes.PermVoteSoftwareUpgradeProposal)
-		want := in[int64(id)] || r.Bool()
+		// only validators, pending claimers and the named non-approving voters become network actors here: an
+		// address that is a network actor must not be used as a rotation target (the rotation would overwrite
+		// its actor record and orphan its permission index entries -- gov/recovery matter, outside C05/C15)
+		_, isVal := x.prev.Vals[id]
+		isPend := false
+		for _, pe := range x.prev.Pend {
+			if int(pe[0]) == id {
+				isPend = true
+			}
+		}
+		want := in[int64(id)] || ((isVal || isPend) && r.Bool())
 		if want && !has {
 			if err := gk.AddWhitelistPermission(ctx, actor, govtypes.PermVoteSoftwareUpgradeProposal); err != nil {
 				panic(err)
